@@ -35,6 +35,19 @@ def run(tier: str) -> int:
     # 4. TLC judges every record
     rejects, consumed, wall = validate_traces("TempoTrace", "TempoTrace", recs, tag=f"c10-{tier}")
     chk.add_traces(recs, rejects)
+    # EXTENSION beyond C10: the position arithmetic under the engine (Snap normalisation / + / - / order / offset, find_lcm):
+    # SnapMC is model-checked (the code-shaped normalisation agrees with the documented meaning for measure >= 0; find_lcm
+    # as a state machine keeps every value a multiple of its element), its scenarios are replayed into the real functions
+    # and SnapTrace judges each call; disagreements are observations, not violations of C10
+    from harness.drivers import snapx
+    sm = run_tlc("SnapMC", f"SnapMC_{tier}", workers=1, timeout=3000)
+    chk.add_model(f"SnapMC_{tier}", sm, "EXTENSION: Snap normalisation (code = documented for measure >= 0), find_lcm state machine invariants")
+    sn = run_tlc("SnapMC", "SnapMC_sanity", workers=1, timeout=600)
+    if sn.ok:
+        chk.model_violations.append("vacuity: SnapMC_sanity (code = documented for every measure) was expected to be violated")
+    xrecs = pmap(snapx.exec_any, [p for p in sm.prints if isinstance(p, dict) and p.get("kind") in ("norm", "lcm")])
+    xrej, _, _ = validate_traces("SnapTrace", "SnapTrace", xrecs, tag=f"c10x-{tier}")
+    chk.add_traces(xrecs, xrej)
     chk.nontrivial = len({(str(x.get("tl")), str(x.get("qs", x.get("ts", x.get("n"))))) for x in recs
                           if x["op"] != "starts" and (x.get("qs") or x.get("ts") or x["op"] == "snapper")})
     chk.rule = ("TLC enumerates every tempo list of the bounded model (emitted with its offset form); the driver "
